@@ -66,6 +66,21 @@ def search():
         return n, dict(source='nested by name', pulled='more than %d elements of an unbounded producer' % LIMIT)
     if len(c.pulled) > 2 + 2 + 0 or out != '[1:1][2:1]':
         return n, dict(source='nested by name', pulled=len(c.pulled), output=out)
+    # previous-batches is not an excepted request: a non-first batch of a lazy producer that lists them
+    for L in (None, 40):
+        for start, size, orphan, overlap in ((4, 3, 0, 0), (7, 3, 1, 1), (5, 2, 0, 1)):
+            src = ('<dtml-in seq start=%d size=%d orphan=%d overlap=%d>[<dtml-var sequence-item>]<dtml-if sequence-start>'
+                   '<dtml-in previous-batches mapping>(<dtml-var batch-start-index>-<dtml-var batch-end-index>)</dtml-in>'
+                   '</dtml-if></dtml-in>' % (start, size, orphan, overlap))
+            c = Counting(L)
+            n += 1
+            try:
+                HTML(src)(seq=iter(c))
+            except PullLimit:
+                return n, dict(source=src, length=L, pulled='more than %d elements of an unbounded producer' % LIMIT)
+            bound = start + size - 1 + size + orphan
+            if len(c.pulled) > bound:
+                return n, dict(source=src, length=L, pulled=len(c.pulled), bound=bound)
     return n, None
 
 
